@@ -82,6 +82,20 @@ func needsNewFromFloat(a, b interface{}) bool {
 	return (aF && bD && fin(fa)) || (aD && bF && fin(fb))
 }
 
+// zeroDivisor: the guard at the top of bsonkit.Mod
+func zeroDivisor(b interface{}) bool {
+	switch d := b.(type) {
+	case int32:
+		return d == 0
+	case int64:
+		return d == 0
+	case primitive.Decimal128:
+		bi, _, err := d.BigInt()
+		return err == nil && bi.Sign() == 0
+	}
+	return false
+}
+
 func numKind(v interface{}) string {
 	switch v.(type) {
 	case int32:
@@ -132,8 +146,8 @@ func init() {
 			default:
 				return "BAD-CASE"
 			}
-			if needsNewFromFloat(a, b) && res != bsonkit.Missing {
-				return "UNMODELLED" // (a Missing result comes from the zero-divisor guard before any conversion)
+			if needsNewFromFloat(a, b) && !(c.list[0].atom == "mod" && zeroDivisor(b)) {
+				return "UNMODELLED" // (the zero-divisor guard of Mod answers Missing before any conversion)
 			}
 			return enc(res)
 		},
